@@ -31,6 +31,10 @@ SUPPORT_GLOBS = ["src/console/model/*.rs", "src/naming/ops/*.rs", "src/config/co
                  "src/mcp/model/*.rs", "src/namespace/model.rs"]
 
 
+COMPOSED_KEY_ROUTES = (".set_config", ".del_config")   # RaftConfigRoute: the key is serialised with ConfigKey::build_key and parsed again on apply
+MOUNTED = set()   # (file, fn) of handlers outside src/console that console routes point to
+
+
 class Priv:
     def __init__(self):
         self.ty = "VerifPrivilege"
@@ -83,7 +87,32 @@ def has_priv(v, depth=0):
     return False
 
 
+STRUCT_DEFS = {}   # struct name -> [(file, fields)]: two modules define request structs of the same name (console / openapi models)
+
+
+def _add(prog, items, rel):
+    prog.add_items(items, rel)
+    for it in items:
+        if it[0] == "struct":
+            STRUCT_DEFS.setdefault(it[1], []).append((rel, it[2]))
+
+
+def scope_structs(prog, rel):
+    """make the struct definitions visible from file `rel` the current ones: the definition that shares the longest directory prefix wins"""
+    def common(a, b):
+        pa, pb = a.split("/"), b.split("/")
+        n = 0
+        while n < min(len(pa), len(pb)) and pa[n] == pb[n]:
+            n += 1
+        return n
+    for name, defs in STRUCT_DEFS.items():
+        if len(defs) > 1:
+            best = max(defs, key=lambda d: common(d[0], rel))
+            prog.structs[name] = best[1]
+
+
 def load():
+    STRUCT_DEFS.clear()
     prog = rseval.Program()
     files = []
     for g in HANDLER_GLOBS + SUPPORT_GLOBS:
@@ -95,12 +124,48 @@ def load():
             items = rsparse.parse_file(p)
         except rsparse.Unsupported as e:
             raise rsparse.Unsupported("%s: %s" % (rel, e))
-        prog.add_items(items, rel)
+        _add(prog, items, rel)
         if any(rel.startswith(os.path.dirname(g)) and "/model/" not in rel for g in HANDLER_GLOBS):
             for it in items:
                 if it[0] == "fn" and it[3] is not None:
                     handlers.append((rel, it))
                     fn_file[id(it)] = rel
+    # handlers of other modules that the console mounts (console/api.rs routes requests of logged-in console users to OpenAPI handler functions)
+    import re
+    mounted = []
+    for p in sorted(glob.glob(os.path.join(REPO, "src/console/*.rs"))):
+        txt = open(p).read()
+        for mod_path, name in re.findall(r"\.to\(\s*crate::((?:\w+::)+)(\w+)\s*\)", txt):
+            if not mod_path.startswith("console::"):
+                mounted.append((mod_path.rstrip(":").split("::"), name))
+        used = set(re.findall(r"\.to\(\s*(\w+)\s*\)", txt))
+        for mod_path, names in re.findall(r"use\s+crate::((?:\w+::)+)\{([^}]*)\}\s*;", txt):
+            if mod_path.startswith("console::"):
+                continue
+            for nm in [x.strip() for x in names.split(",") if x.strip()]:
+                if nm in used:
+                    mounted.append((mod_path.rstrip(":").split("::"), nm))
+    seen_files = {}
+    for parts, name in sorted(set((tuple(a), b) for a, b in mounted)):
+        base = os.path.join(REPO, "src", *parts)
+        fpath = base + ".rs" if os.path.exists(base + ".rs") else os.path.join(base, "mod.rs")
+        if not os.path.exists(fpath):
+            raise rsparse.Unsupported("console route to crate::%s::%s: module file not found" % ("::".join(parts), name))
+        rel = os.path.relpath(fpath, REPO)
+        if rel not in seen_files:
+            seen_files[rel] = rsparse.parse_file(fpath)
+            _add(prog, seen_files[rel], rel)
+            files.append(fpath)
+            # request models next to the handlers
+            for extra in sorted(glob.glob(os.path.join(os.path.dirname(fpath), "model*.rs"))) + sorted(glob.glob(os.path.join(os.path.dirname(fpath), "model", "*.rs"))):
+                if extra not in files:
+                    _add(prog, rsparse.parse_file(extra), os.path.relpath(extra, REPO))
+                    files.append(extra)
+        for it in seen_files[rel]:
+            if it[0] == "fn" and it[1] == name and it[3] is not None:
+                handlers.append((rel, it))
+                fn_file[id(it)] = rel
+                MOUNTED.add((rel, name))
     return prog, handlers, [os.path.relpath(p, REPO) for p in files]
 
 
@@ -166,11 +231,13 @@ def run(tier, seed, only=None):
         viol = None
         skipped = {}
         checked_handlers = []
+        composed_reported = set()
         nq = 0
         for rel, fn in handlers:
             name = fn[1]
             if only and name not in only:
                 continue
+            scope_structs(prog, rel)
             it = rseval.Interp(prog)
             it.lenient = True
             it.opaque_iteration = True
@@ -200,6 +267,12 @@ def run(tier, seed, only=None):
                 it.models[(wty, "into_inner")] = lambda interp, recv, args: recv["0"]
                 it.models[(wty, "as_ref")] = lambda interp, recv, args: recv["0"]
                 it.models[(wty, "clone")] = lambda interp, recv, args: recv
+            def key_is_valid(interp, recv, args, events=events):
+                # ConfigKey::is_valid (dataId and group are plain names: no separator character, rs2smt/c18key.py): Ok or Err, recorded
+                b = z3.Bool("keyvalid_%d" % len(events))
+                events.append(("valid", b))
+                return Ok(()) if interp.branch(b) else Err(Uninterp("invalid-key", []))
+            it.models[(None, "is_valid")] = key_is_valid
             it.macro_models["user_namespace_privilege"] = lambda interp, args: Priv()
             it.macro_models["user_no_namespace_permission"] = lambda interp, args: (_ for _ in ()).throw(rseval.ReturnEx(Uninterp("no-permission-response", [])))
             results.append(name)
@@ -234,11 +307,31 @@ def run(tier, seed, only=None):
                 if exc is not None or evs is None:
                     continue
                 passed = {}
+                validated = []
                 for i, ev in enumerate(evs):
                     if ev[0] == "check":
                         passed[i] = ev
+                    elif ev[0] == "valid":
+                        validated.append(ev[1])
                     elif ev[0] == "access":
                         _k, nm, aargs, pc_at = ev
+                        if nm in COMPOSED_KEY_ROUTES and taint_of(aargs) and (rel, name) not in composed_reported:
+                            # the key travels as one string (dataId U+0002 group U+0002 tenant): without the validity gate a group / dataId that contains
+                            # the separator makes the state machine act on another tenant than the one this handler checked (kernel: s18_5_composed_key)
+                            gate = False
+                            for b in validated:
+                                s.push()
+                                s.add(*pc)
+                                s.add(z3.Not(b))
+                                nq += 1
+                                if s.check() == z3.unsat:
+                                    gate = True
+                                s.pop()
+                            if not gate:
+                                composed_reported.add((rel, name))
+                                viols.append({"message": "console handler %s (%s) hands a configuration key built from request strings to the raft route (%s) without ConfigKey::is_valid: a group or dataId that "
+                                                         "contains the key separator U+0002 moves the request into another namespace than the one the handler checked" % (name, rel, nm),
+                                              "tags": ["composed-key-unvalidated"], "model": {"handler": name, "file": rel, "access": nm, "unchecked": ["group / dataId (separator U+0002)"], "checked": [], "rule": "composed-key"}})
                         if has_priv(aargs):
                             continue
                         used = set()
